@@ -13,6 +13,6 @@ for s in ${SOAK_SEEDS-1 2 3 4 5}; do
 done
 for p in ${SOAK_THOROUGH-$IDS}; do
   t0=$(date +%s)
-  out=$(VERIF_SEED=0 ./check $p --tier thorough 2>&1 | grep -E "^VIOLATION|^OK|^KNOWN" | tr '\n' ';' | cut -c1-300)
+  out=$(VERIF_SEED=0 timeout ${SOAK_TIMEOUT:-3000} ./check $p --tier thorough 2>&1 | grep -E "^VIOLATION|^OK|^KNOWN" | tr '\n' ';' | cut -c1-300)
   echo "seed=0 $p thorough $(( $(date +%s)-t0 ))s: $out"
 done
